@@ -119,6 +119,27 @@ func runC04Cond(c c04CondCase) *Violation {
 			return violf("range [%d,%d] (saturated bounds open-ended) contains a value satisfying %s but EvaluateMinMaxCondition says false", r.Min, r.Max, jsonKey(c.Cond))
 		}
 	}
+	// Ranges are also combined range-with-range (that is how a merge unions the
+	// ranges of the blocks it combines): every split of the values into two
+	// source blocks, merged in either order, must still cover the row's value.
+	for split := 1; split < len(all); split++ {
+		for rot := 0; rot < len(all); rot++ {
+			order := append(append([]Val{}, all[rot:]...), all[:rot]...)
+			ra, okA := foldRange(order[:split])
+			rb, okB := foldRange(order[split:])
+			if !okA || !okB {
+				continue
+			}
+			for _, m := range []bs.MinMaxIndex{bs.UpdateMinMaxIndex(ra, rb.Min, rb.Max), bs.UpdateMinMaxIndex(rb, ra.Min, ra.Max)} {
+				if m.Min > rlo || m.Max < rhi {
+					return violf("ranges [%d,%d] and [%d,%d] of two source blocks combine to [%d,%d], which does not cover value %s (floor/ceil [%d,%d]) held by one of them", ra.Min, ra.Max, rb.Min, rb.Max, m.Min, m.Max, valString(c.V), rlo, rhi)
+				}
+				if numSatisfies(e, c.Cond) && !bs.EvaluateMinMaxCondition(m, c.Cond) {
+					return violf("combined range [%d,%d] prunes a block holding value %s which satisfies %s", m.Min, m.Max, valString(c.V), jsonKey(c.Cond))
+				}
+			}
+		}
+	}
 	return nil
 }
 
